@@ -79,6 +79,7 @@ def param2ast(param):
     """
     name, _param = param
     del param
+    _param = dict(_param)  # do not modify the IR of the caller
     if _param.get("typ") is None and "default" in _param and "[" not in _param:
         _param["typ"] = type(_param["default"]).__name__
     if "default" in _param:
@@ -274,6 +275,7 @@ def param2argparse_param(param, word_wrap=True, emit_default_doc=True):
     """
     name, _param = param
     del param
+    _param = dict(_param)  # do not modify the IR of the caller
     typ, choices, required, action = (
         "str",
         None,
